@@ -132,6 +132,18 @@ CLAIMED.update({
             "DESIGN.md §3 C13", "path enumeration over abstracted search events with a >=-provenance relation on returned values"),
 })
 
+CLAIMED.update({
+    "C17": ("other",
+            "Decides the lock-free discipline that implies the stated clauses, on all paths of Read/Write/Used and over all writers in the program: "
+            "fields of table entries are written only inside the literal that creates them and an entry reaches the slot array only by "
+            "CompareAndSwapPointer; slot addresses flow only into sync/atomic calls; everything Read returns derives from a single LoadPointer "
+            "and the full hash is compared on that same pointer; in Write the entry whose replacement value is compared is the compare-and-swap's "
+            "'old' operand on every iteration and a failed swap reloads; slot count is a power of two with mask = count-1, fixed at construction; "
+            "every table field written after construction is accessed only atomically (raw 64-bit atomics additionally checked for alignment under "
+            "each build configuration in the thorough tier); the fill counter moves only when the swap won an empty slot. Interleavings are not enumerated.",
+            "DESIGN.md §3 C17", "ownership/immutability and atomic-only-access rules over go/ssa (field-write ownership, value-flow of slot addresses, operand identity of the compare-and-swap)"),
+})
+
 NOT_APPLICABLE = {
     "C11": "Transparency of the transposition table is a numeric equality between two complete searches over all positions x depths x table sizes x search sequences; no sound static abstraction in reach bounds it. Its shape-visible clauses are decided under C12 (no store after cancellation, exact bound only after a full loop), C04 (root exits) and C17 (slot discipline).",
 }
